@@ -338,23 +338,41 @@ def c05g(prog, rep):
         """the leaf facts on get_current_token_type() that dominate bb in body"""
         facts = [f for f in dominating_variant_facts(prog, body, bb) if f[0].startswith("get_current_token_type(")]
         return [f for f in facts if f[0].count("@") == 2]
-    # the hand-over may be wrapped: a parser method that calls parse_routine_header under its own `procedure | function` test
-    wrappers = {}
-    for k, hb in prog.bodies.items():
-        if k.startswith(P) and k != b.npath and "{closure" not in k:
+    # the hand-over may be wrapped in small parser methods (`try_parse_procedural_type() -> bool` calling `parse_procedural_type()`
+    # calling parse_routine_header): a method hands over if it calls parse_routine_header or a method that does; it is *tested* if the
+    # `procedure | function` test dominates that call somewhere along the chain
+    def is_routine_fact(lf):
+        return bool(lf) and set(lf[-1][2]) <= {"Function", "Procedure"}
+    handover = {P + "parse_routine_header": False}       # method -> tested inside?
+    for _ in range(3):
+        for k, hb in prog.bodies.items():
+            if not k.startswith(P) or k == b.npath or "{closure" in k or k in handover or hb.loops() or len(hb.blocks) > 80:
+                continue
             for c in hb.calls():
-                if norm(c.t.get("resolved") or c.target or c.callee or "").endswith("::parse_routine_header"):
-                    lf = routine_test(hb, c.bb)
-                    if lf and set(lf[-1][2]) <= {"Function", "Procedure"}:
-                        wrappers[k] = True
+                t = norm(c.t.get("resolved") or c.target or c.callee or "")
+                if t in handover:
+                    tested = handover[t] or is_routine_fact(routine_test(hb, c.bb))
+                    if not tested:
+                        # path-wise (a `matches!` stored in a bool first): on every path that makes the call the token is known to be one of the two
+                        try:
+                            tb = Table(prog, hb)
+                            with_call = [cons for (cons, _r), calls in zip(tb.rows, tb.calls) if any(norm(n) == t for n, _a in calls)]
+                            tested = bool(with_call) and all(any(x[0] in ("is", "in") and str(x[1]).startswith("get_current_token_type(") and str(x[1]).count("@") == 2
+                                                                 and set(x[2] if isinstance(x[2], tuple) else (x[2],)) <= {"Function", "Procedure"} for x in cons) for cons in with_call)
+                        except TooComplex:
+                            tested = False
+                    handover[k] = tested
+                    break
     arms = {}
     for c in b.calls():
         t = norm(c.t.get("resolved") or c.target or c.callee or "")
+        if t not in handover:
+            continue
         leaf = routine_test(b, c.bb)
-        if t.endswith("::parse_routine_header"):
-            if len(leaf) >= 2 and set(leaf[-1][2]) <= {"Function", "Procedure"} and leaf[0][1] == "is":
-                arms.setdefault(leaf[0][2][0], []).append(c)
-        elif t in wrappers and leaf and leaf[0][1] == "is":
+        if not leaf or leaf[0][1] != "is":
+            continue
+        tested_here = len(leaf) >= 2 and is_routine_fact(leaf)
+        if tested_here or handover[t]:
             arms.setdefault(leaf[0][2][0], []).append(c)
     missing = [t for t in TYPE_INTRODUCERS if t not in arms]
     rep.check(not missing, R, "procedural-type-after-every-type-introducer",
